@@ -74,11 +74,155 @@ def _simple_body(fn):
     if not rets:
         return ("none", body, None)
     last = body[-1] if body else None
+    if len(body) > 1:
+        stored0 = {n.id for st in body for n in ast.walk(st) if isinstance(n, ast.Name) and isinstance(n.ctx, ast.Store)}
+        if not (stored0 & {a.arg for a in fn.args.args}):
+            v = _block_value(body, {})
+            if v is not None:
+                return ("value", [], v)
     if len(rets) == 1 and rets[0] is last:
         if last.value is None or (isinstance(last.value, ast.Constant) and last.value.value is None):
             return ("none", body[:-1], None)
         return ("value", body[:-1], last.value)
+    stored = {n.id for st in body for n in ast.walk(st) if isinstance(n, ast.Name) and isinstance(n.ctx, ast.Store)}
+    params = {a.arg for a in fn.args.args}
+    if not (stored & params):
+        v = _block_value(body, {})
+        if v is not None:
+            return ("value", [], v)
     return None
+
+
+_PURE_CALLS = {"uint8", "uint16", "uint32", "uint64", "int8", "int16", "int32", "int64", "float32", "float64", "int", "float", "bool", "len",
+               "isinstance", "min", "max", "abs"}
+
+
+def _pure_expr(e):
+    for n in ast.walk(e):
+        if isinstance(n, ast.Call):
+            f = n.func
+            name = f.id if isinstance(f, ast.Name) else f.attr if isinstance(f, ast.Attribute) else None
+            if name not in _PURE_CALLS:
+                return False
+        elif isinstance(n, (ast.Yield, ast.YieldFrom, ast.Await, ast.NamedExpr, ast.Lambda)):
+            return False
+    return True
+
+
+def _bool_ifexp(test, a, b):
+    """`a if test else b`, written with and/or/not when an arm is a boolean constant (same truth value)."""
+    def const(x):
+        return x.value if isinstance(x, ast.Constant) and isinstance(x.value, bool) else None
+    ca, cb = const(a), const(b)
+    if ca is True and cb is False:
+        return test
+    if ca is False and cb is True:
+        return ast.UnaryOp(op=ast.Not(), operand=test)
+    if ca is True:
+        return ast.BoolOp(op=ast.Or(), values=[test, b])
+    if ca is False:
+        return ast.BoolOp(op=ast.And(), values=[ast.UnaryOp(op=ast.Not(), operand=test), b])
+    if cb is False:
+        return ast.BoolOp(op=ast.And(), values=[test, a])
+    if cb is True:
+        return ast.BoolOp(op=ast.Or(), values=[ast.UnaryOp(op=ast.Not(), operand=test), a])
+    return ast.IfExp(test=test, body=a, orelse=b)
+
+
+def _block_value(stmts, env):
+    """The value a statement block returns, as one expression, when the block is a decision tree of `if`s whose leaves are
+    `return <expr>` and whose only other statements are pure assignments to fresh locals (substituted).  None if not of that shape."""
+    stmts = list(stmts)
+    while stmts:
+        s = stmts[0]
+        if isinstance(s, ast.Expr) and isinstance(s.value, ast.Constant):
+            stmts = stmts[1:]
+            continue
+        if isinstance(s, ast.Pass):
+            stmts = stmts[1:]
+            continue
+        if isinstance(s, ast.Assign) and len(s.targets) == 1 and isinstance(s.targets[0], ast.Name) and _pure_expr(s.value):
+            env = dict(env)
+            env[s.targets[0].id] = _SubstEnv(env).visit(copy.deepcopy(s.value))
+            stmts = stmts[1:]
+            continue
+        if isinstance(s, ast.If):
+            pa = _phi_assign(s, env)
+            if pa is not None:
+                env = dict(env)
+                env[pa[0]] = pa[1]
+                stmts = stmts[1:]
+                continue
+        break
+    if not stmts:
+        return None
+    s = stmts[0]
+    if isinstance(s, ast.Return):
+        v = s.value if s.value is not None else ast.Constant(value=None)
+        return _SubstEnv(env).visit(copy.deepcopy(v))
+    if isinstance(s, ast.If):
+        test = _SubstEnv(env).visit(copy.deepcopy(s.test))
+        if not _pure_expr(test):
+            return None
+        a = _block_value(s.body, env)
+        if a is None:
+            # the body falls through (e.g. only sets locals): not a decision tree
+            return None
+        b = _block_value(list(s.orelse) + stmts[1:], env) if not _always_returns(s.orelse) else _block_value(s.orelse, env)
+        if b is None:
+            return None
+        return _bool_ifexp(test, a, b)
+    return None
+
+
+def _phi_assign(s, env):
+    """(name, expr) when every arm of the `if` is exactly one pure assignment to the same local (an if/elif/else that selects a value)."""
+    def arm(stmts):
+        stmts = [x for x in stmts if not isinstance(x, ast.Pass)]
+        if len(stmts) != 1:
+            return None
+        x = stmts[0]
+        if isinstance(x, ast.Assign) and len(x.targets) == 1 and isinstance(x.targets[0], ast.Name) and _pure_expr(x.value):
+            return x.targets[0].id, _SubstEnv(env).visit(copy.deepcopy(x.value))
+        if isinstance(x, ast.If):
+            return _phi_assign(x, env)
+        return None
+    test = _SubstEnv(env).visit(copy.deepcopy(s.test))
+    if not _pure_expr(test):
+        return None
+    a = arm(s.body)
+    if a is None:
+        return None
+    if s.orelse:
+        b = arm(s.orelse)
+    elif a[0] in env:
+        b = (a[0], copy.deepcopy(env[a[0]]))     # `x = v0` ... `if c: x = v1`
+    else:
+        b = None
+    if b is None or a[0] != b[0]:
+        return None
+    return a[0], _bool_ifexp(test, a[1], b[1])
+
+
+def _always_returns(stmts):
+    if not stmts:
+        return False
+    last = stmts[-1]
+    if isinstance(last, (ast.Return, ast.Raise)):
+        return True
+    if isinstance(last, ast.If):
+        return _always_returns(last.body) and _always_returns(last.orelse)
+    return False
+
+
+class _SubstEnv(ast.NodeTransformer):
+    def __init__(self, env):
+        self.env = env
+
+    def visit_Name(self, n):
+        if isinstance(n.ctx, ast.Load) and n.id in self.env:
+            return copy.deepcopy(self.env[n.id])
+        return n
 
 
 class _Subst(ast.NodeTransformer):
@@ -215,6 +359,7 @@ class Inliner:
                 self.changed += 1
                 out.extend(rep)
                 continue
+            self.inline_exprs(s, cls, caller)
             for fld in ("body", "orelse", "finalbody"):
                 if hasattr(s, fld) and isinstance(getattr(s, fld), list) and not isinstance(s, (ast.FunctionDef, ast.ClassDef)):
                     setattr(s, fld, self.rewrite_block(getattr(s, fld), cls, caller))
@@ -223,6 +368,46 @@ class Inliner:
                     h.body = self.rewrite_block(h.body, cls, caller)
             out.append(s)
         return out
+
+    def inline_exprs(self, s, cls, caller):
+        """Calls to single-expression helpers (no statements left after conversion) with side-effect-free simple arguments are
+        replaced by the helper's expression inside `if`/`while` tests, assignments and returns."""
+        inl = self
+
+        class T(ast.NodeTransformer):
+            def visit_Call(self, c):
+                self.generic_visit(c)
+                r = inl.resolve(c, cls)
+                if r is None:
+                    return c
+                fn, is_method, self_expr = r
+                if not inl.eligible(fn, caller):
+                    return c
+                if not all(isinstance(a, (ast.Name, ast.Constant)) or (isinstance(a, ast.Attribute) and isinstance(a.value, ast.Name))
+                           for a in list(c.args) + [k.value for k in c.keywords]):
+                    return c
+                ex = _expand(fn, c, is_method, self_expr)
+                if ex is None:
+                    return c
+                kind, body, ret = ex
+                if kind != "value" or body or ret is None:
+                    return c
+                inl.inlined_names.add(fn.name)
+                inl.changed += 1
+                return ast.copy_location(ret, c)
+
+            def visit_FunctionDef(self, n):
+                return n
+
+            visit_Lambda = visit_ClassDef = visit_AsyncFunctionDef = visit_FunctionDef
+
+        t = T()
+        if isinstance(s, (ast.If, ast.While)):
+            s.test = t.visit(s.test)
+        elif isinstance(s, (ast.Assign, ast.AnnAssign, ast.AugAssign, ast.Return, ast.Expr)) and getattr(s, "value", None) is not None:
+            s.value = t.visit(s.value)
+        elif isinstance(s, ast.Assert):
+            s.test = t.visit(s.test)
 
     def try_inline(self, s, cls, caller):
         call = None
